@@ -31,6 +31,10 @@ M = [
  ("MCEbr.tla", "MC_C15_exit.cfg", [(r'Mut = \{\}', 'Mut = {"FinalizeDropsBag"}')], "finalize drops the local bag", "dir:exit_with_garbage"),
  ("MCEbr.tla", "MC_C15_exit.cfg", [(r'Mut = \{\}', 'Mut = {"NeverCollect"}')], "collect never pops a bag (liveness)", "ObsAllRan"),
  ("MCEbr.tla", "MC_C16_guards.cfg", [(r'Mut = \{\}', 'Mut = {"UnpinInnerClears"}')], "dropping an inner guard clears the pinned bit", "dir:guard_program"),
+ ("MCEbr.tla", "MC_C13_defcol.cfg", [(r'Mut = \{\}', 'Mut = {"CollectUnexpired"}')], "collect pops unexpired bags (refinement Ebr => EbrAbs)", "dir:two_collectors / random ebr"),
+ ("MCEbr.tla", "MC_C13_defcol.cfg", [(r'Mut = \{\}', 'Mut = {"SealEarly"}')], "bag sealed with the announced instead of the global epoch (refinement)", "random ebr"),
+ ("MCCircAbs.tla", "MC_C02_refines.cfg", [(r'Mut = \{\}', 'Mut = {"RunUnripe"}')], "Circ's EBR part runs a deferred function early (refinement Circ => EbrAbs)", "(contract)"),
+ ("MCCircAbs.tla", "MC_C02_refines.cfg", [(r'Mut = \{\}', 'Mut = {"AdvancePastPinned"}')], "Circ's EBR part advances past a lagging announcement (refinement)", "(contract)"),
  ("MSQueue.tla", "MC_C17_queue.cfg", [(r'Mut = \{\}', 'Mut = {"NoTailFixup"}')], "pop without tail fix-up", "ObsTail"),
  ("MSQueue.tla", "MC_C17_queue.cfg", [(r'Mut = \{\}', 'Mut = {"PopIfRetryUnconditional"}'), (r'PopsPer = 1', 'PopsPer = 2')], "try_pop_if retries without the predicate", "ObsPopIf"),
  ("MSQueue.tla", "MC_C17_queue.cfg", [(r'Mut = \{\}', 'Mut = {"PushTailStore"}')], "push publishes tail with a store", "ObsTail"),
@@ -52,10 +56,14 @@ def main():
         p = subprocess.run(["timeout", "900", "tlc", "-workers", "8", "-metadir", meta, "-cleanup", "-noGenerateSpecTE", "-config", tmp, spec], cwd=SPECS, stdout=subprocess.PIPE, stderr=subprocess.STDOUT, text=True)
         subprocess.run(["rm", "-rf", meta])
         m = re.search(r"Error: (?:Invariant|Action property) (\w+) is violated", p.stdout) or re.search(r"Error: Temporal property (\w+) was violated", p.stdout)
+        if not m and re.search(r"Error: Action property line \d+.* of module (\w+) is violated", p.stdout):
+            m = re.search(r"Error: Action property line \d+.* of module (\w+)( )is violated", p.stdout)
         temporal = "Temporal properties were violated" in p.stdout
         states = re.search(r"(\d+) states generated, (\d+) distinct", p.stdout)
         depth = len(re.findall(r"^State \d+:", p.stdout, re.M))
         verdict = m.group(1) if m else ("temporal" if temporal else ("timeout" if p.returncode == 124 else "not violated"))
+        if re.search(r"Error: Action property line \d+", p.stdout):
+            verdict = "RefinesAbs"
         rows.append((spec, cfg, what, verdict, depth, int(states.group(2)) if states else 0, round(time.time() - t0), scen))
         print(rows[-1], flush=True)
     os.remove(os.path.join(SPECS, "_mut_tmp.cfg"))
